@@ -53,7 +53,7 @@ def quanto_site(exc):
 
 
 class Rec:
-    __slots__ = ("name", "mod", "input", "output", "aq", "in_scale", "out_scale", "g_in", "g_out", "idx")
+    __slots__ = ("name", "mod", "input", "output", "aq", "in_scale", "out_scale", "g_in", "g_out", "idx", "g_in_local")
 
 
 def _snap_scale(t):
@@ -65,10 +65,17 @@ def _obs_pre(d, name, mod, inp):
     r.name, r.mod, r.input = name, mod, inp[0] if len(inp) else None
     r.output = None
     r.g_in = r.g_out = None
+    r.g_in_local = False
     r.idx = len(d.obs) + len(d.open)
     d.open.append(r)
-    if d.train_mode and isinstance(r.input, torch.Tensor) and r.input.requires_grad:
-        r.input.register_hook(lambda g, r=r: setattr(r, "g_in", g))
+    if d.train_mode and type(r.input) is torch.Tensor and r.input.requires_grad:
+        # a private alias of the incoming tensor, so that the hook sees the gradient that flows back
+        # through *this* module only (the tensor itself may feed a skip connection as well)
+        alias = r.input.view_as(r.input)
+        alias.register_hook(lambda g, r=r: setattr(r, "g_in", g))
+        r.input = alias
+        r.g_in_local = True
+        return (alias,) + tuple(inp[1:])
     return None
 
 
@@ -141,6 +148,16 @@ HYPER = {
 }
 
 
+def unsafe_stack_config(model, weights, activations, dtype):
+    """Configurations that this sandbox's torch build cannot execute safely (kept out of every workload,
+    see DESIGN section 8): torch._weight_int8pack_mm on CPU segfaults or returns garbage unless
+    in_features is a multiple of 16, while quanto routes bfloat16 x int8 into it whenever in_features % 4 == 0."""
+    lins = [m for m in model.modules() if isinstance(m, torch.nn.Linear)]
+    if weights == "qint8" and dtype == "bfloat16" and any(m.in_features % 4 == 0 and m.in_features % 16 != 0 for m in lins):
+        return "int8pack_mm_k_not_multiple_of_16"
+    return None
+
+
 def do_quantize(w, d, op, p):
     from optimum.quanto import quantize
     from optimum.quanto.nn import QModuleMixin
@@ -148,6 +165,10 @@ def do_quantize(w, d, op, p):
 
     model = d.model
     wq, aq = QT(op.get("weights")), QT(op.get("activations"))
+    why = unsafe_stack_config(model, op.get("weights"), op.get("activations"), d.dtype)
+    if why:
+        w.probe("excluded_" + why)
+        return "skipped"
     kwargs = {"weights": wq, "activations": aq}
     if op.get("optimizer") == "explicit" and wq is not None:
         kwargs["optimizer"] = AbsmaxOptimizer() if wq.bits == 8 else MaxOptimizer()
@@ -247,17 +268,97 @@ def direct_qweight(mod):
         return quantize_weight(mod.weight.detach(), qtype=mod.weight_qtype, axis=0, group_size=mod.weight_group_size, optimizer=mod.optimizer)
 
 
-def twin_eval(mod, x, aq, in_scale, wdt):
+def float_twin_runs(mod, x):
+    """Would the float original run on the dequantized input as it is (native dtypes)? If it would not
+    (e.g. a float32 tensor reaching a float16 module), the quantized module raising is not judged."""
+    kind = R.module_kind(mod)
+    try:
+        with torch.no_grad():
+            xd = x.dequantize() if R.is_q(x) else x
+            W = direct_qweight(mod).dequantize() if mod.weight_qtype is not None else mod.weight
+            if kind == "linear":
+                F.linear(xd, W, mod.bias)
+            elif kind == "conv":
+                torch.nn.Conv2d._conv_forward(mod, xd, W, mod.bias)
+            elif kind == "ln":
+                F.layer_norm(xd, mod.normalized_shape, W, mod.bias, mod.eps)
+            else:
+                return False
+        return True
+    except Exception:
+        return False
+
+
+def twin_eval(mod, x, aq, in_scale, wdt, widen=False):
+    """Float64 twin output and its error bound. With widen=True the bound additionally models a known
+    defect (float16 only): the quantized linear multiplies the input scale by the weight scales in float16,
+    and that product falls into the subnormal range for small scales (always with qfloat8_e5m2 activations)."""
+    from optimum.quanto.tensor import QBytesTensor
+
     with torch.no_grad():
         x64 = R.effective_input64(mod, x, aq, in_scale)
+        W = None
         if mod.weight_qtype is not None:
-            w64 = R.dq64(direct_qweight(mod))
+            W = direct_qweight(mod)
+            w64 = R.dq64(W)
         else:
             w64 = None if mod.weight is None else mod.weight.detach().to(torch.float64)
         b64 = None if getattr(mod, "bias", None) is None else mod.bias.detach().to(torch.float64)
         y64, M, k, cond = R.twin_raw(mod, x64, w64, b64)
         bound = R.raw_bound(M, k, cond, wdt)
+        xq = effective_qtensor(mod, x, aq, in_scale) if (widen and wdt == torch.float16 and R.module_kind(mod) == "linear" and isinstance(W, QBytesTensor)) else None
+        if xq is not None:
+            prod = float(xq._scale.detach().to(torch.float64).abs().max()) * W._scale.detach().to(torch.float64).reshape(-1).abs()
+            if prod.numel() == 1:
+                prod = prod.expand(w64.shape[0])
+            sub = prod < 6.2e-5
+            if bool(sub.any()):
+                delta = torch.where(sub, 2.0**-24 / prod.clamp(min=1e-300), torch.zeros_like(prod))
+                Mx = F.linear(x64.abs(), w64.abs())
+                bound = bound + delta.clamp(max=1.0) * Mx * 1.5
     return y64, bound
+
+
+def effective_qtensor(mod, x, aq, in_scale):
+    """The quantized tensor the module's kernel actually consumes, or None when it consumes floats
+    (mirrors QModuleMixin.forward / qforward; quantization itself is quanto's)."""
+    from optimum.quanto.tensor import QBytesTensor, quantize_activation
+
+    with torch.no_grad():
+        if isinstance(x, QBytesTensor):
+            if aq is None or (x.qtype == aq and x.axis is None):
+                return x
+            return quantize_activation(x.dequantize().detach(), qtype=aq, scale=in_scale)
+        if aq is not None and R.module_kind(mod) in ("linear", "conv"):
+            return quantize_activation(x.detach(), qtype=aq, scale=in_scale)
+    return None
+
+
+def code_space_overflow(mod, rec, wdt):
+    """Known defect tag: with 8-bit float weights the matmul runs on the *codes* in the module dtype and
+    is scaled afterwards; in float16 the code-space product can overflow although the result is
+    representable. True when that is possible for this call (|x codes|.|w codes| exceeds the float16 max)."""
+    from optimum.quanto.tensor import QBytesTensor
+
+    if wdt != torch.float16 or R.module_kind(mod) != "linear" or mod.weight_qtype is None or not mod.weight_qtype.is_floating_point:
+        return None
+    try:
+        with torch.no_grad():
+            W = direct_qweight(mod)
+            if not isinstance(W, QBytesTensor):
+                return None
+            wc = W._data.to(torch.float64).abs()
+            xq = effective_qtensor(mod, rec.input, rec.aq, rec.in_scale)
+            if xq is not None:
+                if not xq.qtype.is_floating_point:
+                    return None  # int8 activations run the product in float32
+                xc = xq._data.detach().to(torch.float64).abs()
+            else:
+                xc = rec.input.detach().to(torch.float64).abs()
+            m = float(F.linear(torch.nan_to_num(xc, nan=0.0, posinf=0.0), torch.nan_to_num(wc, nan=0.0, posinf=0.0)).max())
+        return "float16_code_space_overflow" if m >= 65504.0 * 0.5 else None
+    except Exception:
+        return None
 
 
 def check_twin(w, d, rec, p, opkind="forward"):
@@ -275,12 +376,20 @@ def check_twin(w, d, rec, p, opkind="forward"):
         return
     w.judged("C08")
     out = rec.output
+    if os.environ.get("QSIM_DEBUG_TWIN"):
+        _dbg = getattr(w, "_dbg", [])
+        _dbg.append({"name": rec.name, "mod": mod, "x": rec.input, "out": out, "y64": y64, "bound": bound, "aq": rec.aq, "in_scale": rec.in_scale, "out_scale": rec.out_scale, "p": list(p)})
+        w._dbg = _dbg
     if tuple(out.shape) != tuple(y64.shape):
         x = rec.input
         w.violate("C08", "twin", opkind, dict(base_sig, issue="shape", in_rank=x.ndim), f"{rec.name}: output shape {tuple(out.shape)} twin {tuple(y64.shape)}", p)
         return
     fmax = float(torch.finfo(wdt).max)
-    mask = torch.isfinite(y64) & torch.isfinite(bound) & ((y64.abs() + bound) < fmax)
+    mask = torch.isfinite(y64) & torch.isfinite(bound) & ((y64.abs() + bound) < fmax) & ((bound / (R.C_ROUND * R.eps_of(wdt))) < 0.5 * fmax)
+    cause = code_space_overflow(mod, rec, wdt)
+    if cause:
+        base_sig["cause"] = cause
+        w.probe(cause)
     if rec.aq is None:
         if R.is_q(out):
             w.violate("C08", "twin", opkind, dict(base_sig, issue="type"), f"{rec.name}: quantized output without activation qtype", p)
@@ -290,6 +399,20 @@ def check_twin(w, d, rec, p, opkind="forward"):
         o64 = out.detach().to(torch.float64)
         good = (o64 - y64).abs() <= bound
         bad = mask & ~good
+        if bool(bad.any()) and "cause" not in base_sig and wdt == torch.float16:
+            y64w, boundw = twin_eval(mod, rec.input, rec.aq, rec.in_scale, wdt, widen=True)
+            if not bool((mask & ~((o64 - y64w).abs() <= boundw)).any()):
+                base_sig["cause"] = "float16_scale_product_underflow"
+                w.probe("float16_scale_product_underflow")
+        if bool(bad.any()) and os.environ.get("QSIM_DEBUG_TWIN"):
+            import sys as _sys
+
+            W_ = direct_qweight(mod)
+            xd_ = (rec.input.dequantize() if R.is_q(rec.input) else rec.input).detach().double()
+            print("DEBUG twin", rec.name, base_sig, "x", type(rec.input).__name__, tuple(rec.input.shape), "absmax", float(xd_.abs().max()), "W", type(W_).__name__, "scale", float(W_._scale.abs().min()), float(W_._scale.abs().max()), "codes absmax", float(torch.nan_to_num(W_._data.double() if not hasattr(W_._data, "unpack") else W_._data.unpack().double()).abs().max()), "bias", None if mod.bias is None else float(mod.bias.abs().max()), "maxerr", float(((o64 - y64).abs() * mask).max()), "maxbound", float(bound.max()), file=_sys.stderr)
+            if R.module_kind(mod) == "linear" and not hasattr(W_._data, "unpack"):
+                cs = F.linear(xd_.abs(), torch.nan_to_num(W_._data.double()).abs())
+                print("   code-space |x|.|c| max", float(cs.max()), "signed max", float(F.linear(xd_, torch.nan_to_num(W_._data.double())).abs().max()), file=_sys.stderr)
         if bool(bad.any()):
             nonfinite = bool((bad & ~torch.isfinite(o64)).any())
             i = int(torch.nonzero(bad.reshape(-1))[0])
@@ -317,6 +440,13 @@ def check_twin(w, d, rec, p, opkind="forward"):
     c64 = out._data.detach().to(torch.float64)
     good = (c64 >= lo) & (c64 <= hi)
     bad = mask & ~good
+    if bool(bad.any()) and "cause" not in base_sig and wdt == torch.float16:
+        # explained by the float16 scale-product underflow (known defect)? then say so in the class
+        y64w, boundw = twin_eval(mod, rec.input, rec.aq, rec.in_scale, wdt, widen=True)
+        low, hiw = R.code_interval(y64w, boundw, s, rec.aq, wdt)
+        if not bool((mask & ~((c64 >= low) & (c64 <= hiw))).any()):
+            base_sig["cause"] = "float16_scale_product_underflow"
+            w.probe("float16_scale_product_underflow")
     if bool(bad.any()):
         i = int(torch.nonzero(bad.reshape(-1))[0])
         w.violate(
@@ -381,22 +511,29 @@ def check_ema(w, d, pre, aborted, p):
             continue
         w.judged("C12")
         qmax = R.qrange(aq0)[1]
-        u = R.eps_of(sdt if sdt.is_floating_point else wdt)
+        # working precision of the scale arithmetic: the coarser of the dtypes the scales have/had
+        dts = [t for t in (sdt, mod.input_scale.dtype, mod.output_scale.dtype, wdt) if t.is_floating_point]
+        u = max(R.eps_of(t) for t in dts)
+        sub = max(float(torch.finfo(t).tiny * torch.finfo(t).eps) for t in dts)
+        if not all(map(lambda v: v == v and abs(v) != float("inf"), (old_in, old_out, now_in, now_out))):
+            w.probe("non_finite_scale")
+            st["in"] = st["out"] = True
+            continue
         x = rec.input
         # ---- input scale
         if isinstance(x, QBytesTensor):
             new_in = float(torch.max(x._scale))
-            cause = None if now_in == new_in else "quantized_input_scale_not_adopted"
+            cause = None if (now_in == new_in or new_in != new_in) else "quantized_input_scale_not_adopted"
             tol_in = 0.0
             w.probe("module_fed_quantized_tensor")
         else:
             amax = float(x.detach().to(torch.float64).abs().max())
             new_in = amax / qmax
-            tol_in = 16 * u * max(abs(old_in), abs(new_in), abs(now_in)) + 1e-300
+            tol_in = 16 * u * max(abs(old_in), abs(new_in), abs(now_in)) + 4 * sub
             cause = _law(now_in, old_in, new_in, m, st["in"], tol_in)
             if cause is not None and aborted and abs(now_in - old_in) == 0:
                 cause = None
-            if cause is None and not st["in"] and now_in > 0 and amax / now_in > qmax * (1 + 16 * u):
+            if cause is None and not st["in"] and now_in > 0 and amax > qmax * (now_in * (1 + 16 * u) + 4 * sub):
                 cause = "first_batch_saturates"
         if new_in == 1.0 or now_in == 1.0:
             w.probe("scale_exactly_one")
@@ -405,7 +542,8 @@ def check_ema(w, d, pre, aborted, p):
         st["in"] = True
         # ---- output scale: raw twin output with the updated input scale
         try:
-            y64, bound = twin_eval(mod, x, aq0, mod.input_scale.detach(), wdt)
+            # widened bound: how precise the raw output is, is C08's business (known float16 defects), not the law's
+            y64, bound = twin_eval(mod, x, aq0, mod.input_scale.detach(), wdt, widen=True)
         except Exception:
             w.probe("twin_not_evaluable")
             st["out"] = True
@@ -417,11 +555,11 @@ def check_ema(w, d, pre, aborted, p):
         ymax = float(y64.abs().max())
         bmax = float(bound.max())
         new_out = ymax / qmax
-        tol_out = 16 * u * max(abs(old_out), abs(new_out), abs(now_out)) + 2 * bmax / qmax + 1e-300
+        tol_out = 16 * u * max(abs(old_out), abs(new_out), abs(now_out)) + 2 * bmax / qmax + 4 * sub
         cause = _law(now_out, old_out, new_out, m, st["out"], tol_out)
         if cause is not None and aborted and now_out == old_out:
             cause = None
-        if cause is None and not st["out"] and now_out > 0 and (ymax - bmax) / now_out > qmax * (1 + 16 * u):
+        if cause is None and not st["out"] and now_out > 0 and (ymax - bmax) > qmax * (now_out * (1 + 16 * u) + 4 * sub):
             cause = "first_batch_saturates"
         if new_out == 1.0 or now_out == 1.0:
             w.probe("scale_exactly_one")
@@ -453,23 +591,25 @@ def memo_check(w, d, key, out, p, opkind="forward"):
         return
     via = set(x.split(":")[0] for x in d.oplog[ent[1] :])
     v9, v10 = via & C09_OPS, via & C10_OPS
-    if v9:
-        w.judged("C09")
-    if v10:
-        w.judged("C10")
-    if not v9 and not v10:
-        w.judged("C13")
-    if dig == ent[0]:
-        return
     q = d.qcfg or {}
     base = {"wq": q.get("weights"), "aq": q.get("activations")}
+    if d.taint:
+        base["taint"] = d.taint
     det = f"dep {d.id}: output on a memoised input differs (stamp {d.stamp}); ops since: {d.oplog[ent[1]:]}"
-    if v9:
-        w.violate("C09", "memo", opkind, dict(base, via=",".join(sorted(v9))), det, p)
-    if v10:
-        w.violate("C10", "memo", opkind, dict(base, via=",".join(sorted(x for x in d.oplog[ent[1] :] if x.split(":")[0] in C10_OPS))[:80]), det, p)
-    if not v9 and not v10:
-        w.violate("C13", "repeat", opkind, dict(base), det, p)
+    # one mismatch, one property: the one in focus when an op of its kind lies in between; a pure
+    # repeat (nothing output-preserving in between) belongs to C13
+    if w.focus("C09") and v9:
+        w.judged("C09")
+        if dig != ent[0]:
+            w.violate("C09", "memo", opkind, dict(base, via=",".join(sorted(v9))), det, p)
+    elif w.focus("C10") and v10:
+        w.judged("C10")
+        if dig != ent[0]:
+            w.violate("C10", "memo", opkind, dict(base, via=",".join(sorted(v10))), det, p)
+    elif w.focus("C13") and not v9 and not v10:
+        w.judged("C13")
+        if dig != ent[0]:
+            w.violate("C13", "repeat", opkind, dict(base), det, p)
 
 
 def do_forward(w, d, op, p):
@@ -515,12 +655,7 @@ def do_forward(w, d, op, p):
             check_twin(w, d, r, p)
         if exc is not None and not injected and d.open:
             r = d.open[-1]
-            wdt = DTYPES[d.dtype]
-            try:
-                twin_eval(r.mod, r.input, r.mod.activation_qtype, r.mod.input_scale.detach(), wdt)
-                twin_ok = True
-            except Exception:
-                twin_ok = False
+            twin_ok = float_twin_runs(r.mod, r.input)
             if twin_ok:
                 w.judged("C08")
                 xin = r.input
@@ -560,7 +695,7 @@ def do_forward(w, d, op, p):
         if injected:
             raise exc
         w.probe("workload_error:" + type(exc).__name__)
-        w.log.add("workload-error", type(exc).__name__, quanto_site(exc))
+        w.log.add("workload-error", type(exc).__name__, quanto_site(exc), str(exc)[:160])
         from .engine_l import WorkloadError
 
         raise WorkloadError(exc)
@@ -768,14 +903,24 @@ def do_deepcopy(w, d, op, p):
 def do_to(w, d, op, p):
     how = op.get("how", "to_cpu")
     try:
-        if how == "to_cpu":
-            d.model = d.model.to("cpu")
-            d.oplog.append("to_cpu")
-        elif how == "cpu":
-            d.model = d.model.cpu()
+        if how in ("to_cpu", "cpu"):
+            for attempt in (0, 1):
+                try:
+                    d.model = d.model.to("cpu") if how == "to_cpu" else d.model.cpu()
+                    break
+                except RuntimeError as e:
+                    # torch refuses to swap a wrapper-subclass parameter while something else still references it
+                    if "swap" not in str(e) or attempt:
+                        w.probe("move_unavailable")
+                        return "unavailable"
+                    gc.collect()
             d.oplog.append("to_cpu")
         elif how == "dtype":
             new = op["dtype"]
+            q = d.qcfg or {}
+            if unsafe_stack_config(d.model, q.get("weights"), q.get("activations"), new):
+                w.probe("excluded_to_dtype")
+                return "skipped"
             d.model = d.model.to(DTYPES[new])
             d.dtype = new
             d.stamp += 1
@@ -877,4 +1022,514 @@ def sentinel_check(w, kind, how, p):
 def do_sentinel(w, op, p):
     ensure_sentinel(w)
     sentinel_check(w, "explicit", "n/a", p)
+    return "ok"
+
+
+# ------------------------------------------------------------------------------------------------
+# state_dict / save / load (C10) on the simulated disk
+
+
+class FailingWriter(io.BytesIO):
+    """File object that accepts `limit` bytes and then fails like a full / broken disk."""
+
+    def __init__(self, limit, err):
+        super().__init__()
+        self.limit = limit
+        self.err = err
+        self.failed = False
+
+    def write(self, b):
+        if self.tell() + len(b) > self.limit:
+            self.failed = True
+            raise OSError(self.err, os.strerror(self.err))
+        return super().write(b)
+
+
+def sd_check_types(w, sd, opkind, p, keep_vars=False):
+    ok = True
+    plain = (torch.Tensor, torch.nn.Parameter) if keep_vars else (torch.Tensor,)
+    for k, v in sd.items():
+        if type(v) not in plain and not isinstance(v, str):
+            ok = False
+            w.violate("C10", "sd_types", opkind, {"type": type(v).__name__, "key": k.split(".")[-1]}, f"state_dict[{k}] is a {type(v).__name__}", p)
+    return ok
+
+
+def sd_snapshot(sd):
+    """Comparable snapshot of a state_dict: key -> ('t', dtype, shape, bytes) | ('s', str)."""
+    out = {}
+    for k, v in sd.items():
+        if isinstance(v, torch.Tensor):
+            out[k] = ("t", str(v.dtype), tuple(v.shape), R.tensor_digest(v))
+        else:
+            out[k] = ("s", str(v))
+    return out
+
+
+def sd_diff(a, b):
+    ka, kb = set(a), set(b)
+    if ka != kb:
+        return f"keys differ: only in first {sorted(ka - kb)[:6]}, only in second {sorted(kb - ka)[:6]}", "keys"
+    for k in a:
+        if a[k] != b[k]:
+            return f"{k}: {a[k][:3]} vs {b[k][:3]}", "value:" + k.split(".")[-1]
+    return None, None
+
+
+def write_sd(w, sd, ser, target):
+    from optimum.quanto import safe_save
+
+    if ser == "safetensors":
+        safe_save(sd, target)
+    else:
+        torch.save(sd, target)
+
+
+def read_sd(rec, weights_only=True):
+    from optimum.quanto import safe_load
+
+    if rec["ser"] == "safetensors":
+        return safe_load(rec["path"])
+    if rec["ser"] == "pickle_bytes":
+        return torch.load(io.BytesIO(rec["bytes"]), weights_only=weights_only)
+    return torch.load(rec["path"], weights_only=weights_only)
+
+
+def module_info(model):
+    from optimum.quanto.tensor import QTensor
+
+    info = {}
+    for n, m in qmodules(model):
+        info[n] = {
+            "wq": m.weight_qtype.name if m.weight_qtype else None,
+            "aq": m.activation_qtype.name if m.activation_qtype else None,
+            "frozen": isinstance(m.weight, QTensor),
+            "gs": m.weight_group_size,
+            "weight": R.tensor_digest(m.weight),
+            "in": R.tensor_digest(m.input_scale),
+            "out": R.tensor_digest(m.output_scale),
+            "bias": R.tensor_digest(getattr(m, "bias", None)),
+        }
+    return info
+
+
+def do_state_dict(w, d, op, p):
+    sd = d.model.state_dict(keep_vars=bool(op.get("keep_vars")))
+    w.judged("C10")
+    sd_check_types(w, sd, "state_dict", p, keep_vars=bool(op.get("keep_vars")))
+    d.oplog.append("state_dict")
+    w.log.add("sd", hexdigest(sorted(sd_snapshot(sd).items())))
+    return "ok"
+
+
+def do_save(w, d, op, p):
+    from .core import bump
+
+    ser = op.get("ser", "pickle_bytes")
+    try:
+        sd = d.model.state_dict()
+    except Exception as e:
+        w.violate("C10", "state_dict_raises", "save", {"exc": type(e).__name__, "at": quanto_site(e)}, repr(e)[:300], p)
+        return "error"
+    w.judged("C10")
+    sd_check_types(w, sd, "save", p)
+    snap = sd_snapshot(sd)
+    fd = op.get("fault")
+    if fd and fd.get("kind") == "write_fail":
+        bump(w.res["faults_armed"], "write_fail")
+        before = R.state_digest(d.model)
+        failed = False
+        try:
+            if ser == "safetensors":
+                write_sd(w, sd, ser, os.path.join(w.scratch_dir(), "no-such-dir", "x.safetensors"))
+            else:
+                fw = FailingWriter(fd.get("offset", 0), errno.ENOSPC if fd.get("err") != "EIO" else errno.EIO)
+                write_sd(w, sd, ser, fw)
+        except Exception:
+            failed = True
+        if failed:
+            bump(w.res["faults_fired"], "write_fail")
+            w.probe("save_failed_then_retried")
+        if R.state_digest(d.model) != before or sd_diff(snap, sd_snapshot(d.model.state_dict()))[0]:
+            w.violate("C10", "write_fail_side_effect", "save", {"ser": ser}, "a failed save changed the model's state", p)
+    rec = {"ser": ser, "src": d.id}
+    try:
+        if ser == "pickle_bytes":
+            b = io.BytesIO()
+            write_sd(w, sd, ser, b)
+            rec["bytes"] = b.getvalue()
+        else:
+            rec["path"] = os.path.join(w.scratch_dir(), f"f{op['fid']}." + ("safetensors" if ser == "safetensors" else "pt"))
+            write_sd(w, sd, ser, rec["path"])
+    except Exception as e:
+        w.violate("C10", "save_raises", "save", {"ser": ser, "exc": type(e).__name__, "at": quanto_site(e)}, repr(e)[:400], p)
+        return "error"
+    # (b) load . save is the identity on state_dicts
+    for wo in ([True, False] if ser != "safetensors" else [True]):
+        try:
+            back = read_sd(rec, weights_only=wo)
+        except Exception as e:
+            w.violate("C10", "serializer_identity", "save", {"ser": ser, "weights_only": wo, "issue": "load_raises:" + type(e).__name__}, repr(e)[:400], p)
+            continue
+        if not all(type(v) is torch.Tensor or isinstance(v, str) for v in back.values()):
+            w.violate("C10", "serializer_identity", "save", {"ser": ser, "weights_only": wo, "issue": "types"}, "loaded state_dict holds other things than tensors and strings", p)
+            continue
+        det, what = sd_diff(snap, sd_snapshot(back))
+        if det:
+            w.violate("C10", "serializer_identity", "save", {"ser": ser, "weights_only": wo, "issue": what}, det, p)
+    # (d) saving a loaded model again gives an equal state_dict
+    if d.src_fid is not None and d.src_fid in w.files and d.stamp == d.src_stamp and not (set(x.split(":")[0] for x in d.oplog[d.src_oplog_len :]) & C09_OPS):
+        w.judged("C10")
+        det, what = sd_diff(w.files[d.src_fid]["snap"], snap)
+        if det:
+            src = w.files[d.src_fid]
+            w.violate("C10", "resave_equal", "save", {"target": d.origin, "issue": what, "src_frozen": src["frozen"]}, det, p)
+        else:
+            w.probe("resave_equal_checked")
+    rec.update(
+        snap=snap,
+        stamp=d.stamp,
+        memo=dict(d.memo),
+        oplog=list(d.oplog) + ["save"],
+        arch=d.arch,
+        in_shape=d.in_shape,
+        dtype=d.dtype,
+        wcls=d.wcls,
+        qcfg=copy.deepcopy(d.qcfg),
+        info=module_info(d.model),
+        frozen=d.frozen,
+        ema=copy.deepcopy(d.ema),
+        calibrated=d.calibrated,
+        quantized=d.quantized,
+        restarts=d.restarts,
+        taint=d.taint,
+    )
+    w.files[op["fid"]] = rec
+    d.oplog.append("save")
+    return "ok:" + ser
+
+
+def do_load(w, op, p):
+    from optimum.quanto import quantize, requantize
+    from optimum.quanto.tensor import QTensor
+
+    from .engine_l import Dep
+
+    rec = w.files[op["fid"]]
+    if not rec["quantized"]:
+        return "skipped"
+    target = op.get("target", "same")
+    restart = bool(op.get("restart"))
+    if restart:
+        src = w.deps.pop(rec["src"], None)
+        if src is not None:
+            remove_observers(src)
+            src.model = None
+            del src
+        gc.collect()
+        w.probe("restart")
+    w.judged("C10")
+    base_sig = {"target": target, "src_frozen": rec["frozen"], "wq": rec["qcfg"].get("weights"), "aq": rec["qcfg"].get("activations"), "ser": rec["ser"]}
+    try:
+        sd = read_sd(rec, weights_only=op.get("weights_only", True))
+    except Exception as e:
+        w.violate("C10", "load_raises", "load", dict(base_sig, exc=type(e).__name__, at="read"), repr(e)[:300], p)
+        return "error"
+    if op.get("reorder"):
+        import random
+
+        keys = list(sd.keys())
+        mode = op["reorder"]
+        if mode == "reverse":
+            keys.reverse()
+        elif mode == "strings_first":
+            keys.sort(key=lambda k: (isinstance(sd[k], torch.Tensor), k))
+        else:
+            random.Random(op.get("perm_seed", 0)).shuffle(keys)
+        sd = {k: sd[k] for k in keys}
+        w.probe("load_reordered")
+    model = build_model(rec["arch"], rec["dtype"], op.get("init", 1), rec["wcls"])
+    q = rec["qcfg"]
+    try:
+        if target == "requantize":
+            requantize(model, sd)
+        else:
+            if target == "default":
+                quantize(model)
+            else:
+                kwargs = {"weights": QT(q.get("weights")), "activations": QT(q.get("activations"))}
+                if q.get("filter") is not None:
+                    kwargs["modules"] = [model.get_submodule(x) for x in q["filter"]]
+                quantize(model, **kwargs)
+            model.load_state_dict(sd, assign=bool(op.get("assign")))
+    except (InjectedFault, InjectedInterrupt):
+        raise
+    except Exception as e:
+        has_qln = any(m["wq"] is None for m in rec["info"].values())
+        w.violate("C10", "load_raises", "load", dict(base_sig, exc=type(e).__name__, at=quanto_site(e), qlayernorm=has_qln), repr(e)[:500], p)
+        return "error:" + type(e).__name__
+    n = Dep(op["new"])
+    n.arch, n.in_shape, n.dtype, n.wcls, n.init = rec["arch"], rec["in_shape"], rec["dtype"], rec["wcls"], op.get("init", 1)
+    n.model = model
+    n.model.eval()
+    n.quantized = True
+    n.qcfg = copy.deepcopy(q)
+    n.stamp = rec["stamp"]
+    # the memo survives a save/load only where that is the property in focus (C10); elsewhere the loaded
+    # model starts a memo of its own, so that a C10 defect cannot be charged to another property
+    n.memo = dict(rec["memo"]) if w.focus("C10") else {}
+    n.oplog = (list(rec["oplog"]) + ["load:" + target] + (["restart"] if restart else [])) if w.focus("C10") else []
+    n.taint = rec.get("taint")
+    n.origin = {"default": "loaded-default", "same": "loaded-same", "requantize": "requantized"}[target]
+    n.frozen = rec["frozen"]
+    n.ema = copy.deepcopy(rec["ema"])
+    n.calibrated = rec["calibrated"]
+    n.restarts = rec["restarts"] + (1 if restart else 0)
+    n.src_fid = op["fid"]
+    n.src_stamp = rec["stamp"]
+    n.src_oplog_len = len(n.oplog)
+    if restart and target == "requantize":
+        w.probe("restart_then_requantize")
+    install_observers(n)
+    w.deps[n.id] = n
+    # (c) the loaded model holds what was saved
+    try:
+        snap2 = sd_snapshot(model.state_dict())
+    except Exception as e:
+        w.violate("C10", "load_equal", "load", dict(base_sig, issue="state_dict_raises"), repr(e)[:300], p)
+        n.broken = True
+        return "error"
+    det, what = sd_diff(rec["snap"], snap2)
+    if det:
+        w.violate("C10", "load_equal", "load", dict(base_sig, issue="state_dict:" + what), det, p)
+    info2 = module_info(model)
+    for name, a in rec["info"].items():
+        b = info2.get(name)
+        if b is None:
+            w.violate("C10", "load_equal", "load", dict(base_sig, issue="module_not_quantized"), f"{name} is not a quantized module in the target", p)
+            continue
+        for fld in ("wq", "aq", "frozen", "weight", "in", "out", "bias", "gs"):
+            if fld == "gs" and a["frozen"]:
+                continue  # a frozen weight carries its own group size
+            if fld == "gs" and a[fld] != b[fld]:
+                n.taint = "group_size_lost"  # known defect: names the cause in later output mismatches
+            if a[fld] != b[fld]:
+                w.violate("C10", "load_equal", "load", dict(base_sig, issue="field:" + fld), f"{name}.{fld}: saved {a[fld]} loaded {b[fld]}", p)
+    for name, t in list(model.named_parameters()) + list(model.named_buffers()):
+        if t.device.type != "cpu":
+            w.violate("C10", "load_equal", "load", dict(base_sig, issue="device"), f"{name} on {t.device}", p)
+    check_weights_invariant(w, n, "load:" + target, p)
+    return "ok:" + target
+
+
+# ------------------------------------------------------------------------------------------------
+# training steps and weight updates (C11)
+
+
+def _local_reference_grads(mod, rec, wdt, absolute=False):
+    """Float64 straight-through reference of one module: gradients w.r.t. input, weight, bias for the
+    upstream gradient that actually reached the module's output. With absolute=True the same graph
+    is evaluated on |x|, |W|, |G| (the conv/linear maps are bilinear with these positive entries), which
+    yields the magnitudes that scale the rounding bounds."""
+    kind = R.module_kind(mod)
+    aq = rec.aq
+    with torch.no_grad():
+        x64 = R.effective_input64(mod, rec.input, aq, rec.in_scale)
+        w64 = R.dq64(direct_qweight(mod))
+        b64 = None if mod.bias is None else mod.bias.detach().to(torch.float64)
+        g = rec.g_out
+        g64 = (g.dequantize() if R.is_q(g) else g).detach().to(torch.float64)
+    if absolute:
+        x64, w64, g64 = x64.abs(), w64.abs(), g64.abs()
+        b64 = None if b64 is None else b64.abs()
+    x64 = x64.clone().requires_grad_(True)
+    w64 = w64.clone().requires_grad_(True)
+    if b64 is not None:
+        b64 = b64.clone().requires_grad_(True)
+    with torch.enable_grad():
+        if kind == "linear":
+            y = F.linear(x64, w64, b64)
+        else:
+            y = R._conv64(mod, x64, w64, b64)
+        if tuple(y.shape) != tuple(g64.shape):
+            return None
+        y.backward(g64)
+    return x64.grad, w64.grad, None if b64 is None else b64.grad
+
+
+def check_grads(w, d, rec, p):
+    from optimum.quanto.tensor import QTensor
+
+    mod = rec.mod
+    kind = R.module_kind(mod)
+    if kind not in ("linear", "conv") or rec.g_out is None:
+        return
+    wdt = DTYPES[d.dtype]
+    frozen = isinstance(mod.weight, QTensor)
+    base = {"kind": kind, "wq": mod.weight_qtype.name if mod.weight_qtype else None, "aq": rec.aq.name if rec.aq else None, "dtype": d.dtype, "frozen": frozen, "in_rank": rec.input.ndim}
+    try:
+        ref = _local_reference_grads(mod, rec, wdt)
+        mag = _local_reference_grads(mod, rec, wdt, absolute=True)
+    except Exception as e:
+        w.probe("grad_reference_not_evaluable")
+        return
+    if ref is None or mag is None:
+        w.probe("grad_reference_shape_mismatch")
+        return
+    w.judged("C11")
+    u, u32 = R.eps_of(wdt), R.eps_of(torch.float32)
+    rows = max(1, rec.g_out.numel() // max(1, rec.g_out.shape[-1] if kind == "linear" else rec.g_out.shape[1]))
+    ks = {"input": mod.weight.shape[0] * (1 if kind == "linear" else mod.weight[0, 0].numel()), "weight": rows, "bias": rows}
+
+    def cmp(which, got, want, M):
+        if got is None:
+            w.violate("C11", "grads", "train", dict(base, which=which, issue="missing"), f"{rec.name}: no gradient reached {which}", p)
+            return
+        got = got.dequantize() if R.is_q(got) else got
+        if tuple(got.shape) != tuple(want.shape):
+            w.violate("C11", "grads", "train", dict(base, which=which, issue="shape"), f"{rec.name}: {which} gradient shape {tuple(got.shape)} reference {tuple(want.shape)}", p)
+            return
+        g64 = got.detach().to(torch.float64)
+        bound = R.C_ROUND * u * M + 2.0 * ks[which] * u32 * M + float(torch.finfo(wdt).tiny)
+        fmax = float(torch.finfo(wdt).max)
+        # partial sums of a half precision kernel may overflow where the sum of magnitudes does: not judged
+        mask = torch.isfinite(want) & ((want.abs() + bound) < fmax) & (M < 0.5 * fmax)
+        bad = mask & ~((g64 - want).abs() <= bound)
+        if bool(bad.any()):
+            i = int(torch.nonzero(bad.reshape(-1))[0])
+            w.violate("C11", "grads", "train", dict(base, which=which, issue="value"), f"{rec.name}: {which} gradient: {int(bad.sum())}/{bad.numel()} off; idx {i}: got {g64.reshape(-1)[i].item()} ref {want.reshape(-1)[i].item()} bound {bound.reshape(-1)[i].item()}", p)
+
+    if rec.g_in_local:
+        cmp("input", rec.g_in, ref[0], mag[0])
+    if frozen:
+        if mod.weight.grad is not None:
+            w.violate("C11", "nograd", "train", dict(base, which="frozen_weight"), f"{rec.name}: frozen weight received a gradient", p)
+    else:
+        cmp("weight", mod.weight.grad, ref[1], mag[1])
+    if mod.bias is not None:
+        cmp("bias", mod.bias.grad, ref[2], mag[2])
+    for sn in ("input_scale", "output_scale"):
+        s = getattr(mod, sn)
+        if s.grad is not None:
+            w.violate("C11", "nograd", "train", dict(base, which=sn), f"{rec.name}: {sn} received a gradient", p)
+
+
+def do_train(w, d, op, p):
+    """One training step: forward with a leaf input that requires grad, backward with a planned
+    upstream gradient, per-module gradient oracle, optional SGD update."""
+    from .engine_l import WorkloadError
+
+    if not d.quantized:
+        return "skipped"
+    x = make_input(d, op["input"])
+    if R.is_q(x):
+        return "skipped"
+    x = x.clone().requires_grad_(True)
+    for prm in d.model.parameters():
+        prm.grad = None
+    counts = {}
+    d.obs, d.open = [], []
+    d.train_mode = True
+    exc = None
+    out = None
+    try:
+        with torch.enable_grad():
+            out = d.model(x)
+            o = out.dequantize() if R.is_q(out) else out
+            G = archs.gen_payload(tuple(o.shape), o.dtype, op.get("gseed", 1), "noise", op.get("gmag", 1.0))
+            if op.get("noncontig") and G.ndim >= 2:
+                G = G.transpose(-1, -2).contiguous().transpose(-1, -2)
+            o.backward(G)
+    except (InjectedFault, InjectedInterrupt):
+        raise
+    except Exception as e:
+        exc = e
+    finally:
+        d.train_mode = False
+    if w.depth > 0:
+        d.stamp += 1
+    recs = list(d.obs)
+    d.obs, d.open = [], []
+    if exc is not None:
+        # a backward (or forward) that raises where the float module's runs
+        site = quanto_site(exc)
+        in_backward = any(fs.name == "backward" for fs in traceback.extract_tb(exc.__traceback__))
+        w.judged("C11")
+        wdt = DTYPES[d.dtype]
+        dtypes_ok = all(m.input_scale.dtype == wdt and m.output_scale.dtype == wdt for _, m in qmodules(d.model) if m.activation_qtype is not None)
+        if not dtypes_ok:
+            # scales of another dtype than the module (never calibrated in this dtype): the float program mixes dtypes too
+            w.probe("train_error_with_foreign_scale_dtype")
+        elif in_backward or "backward" in site:
+            w.violate("C11", "backward_raises", "train", {"exc": type(exc).__name__, "at": site, "noncontig": bool(op.get("noncontig")), "in_rank": x.ndim}, repr(exc)[:500], p)
+        w.probe("train_error:" + type(exc).__name__)
+        w.log.add("train-error", type(exc).__name__, site, str(exc)[:160])
+        raise WorkloadError(exc)
+    for r in recs:
+        counts[r.name] = counts.get(r.name, 0) + 1
+    if w.focus("C11"):
+        for r in recs:
+            if counts[r.name] == 1:
+                check_grads(w, d, r, p)
+    if w.focus("C08"):
+        for r in recs:
+            check_twin(w, d, r, p, "train")
+    lr = op.get("lr")
+    if lr:
+        with torch.no_grad():
+            n = 0
+            for prm in d.model.parameters():
+                if prm.grad is not None and not R.is_q(prm):
+                    prm.add_(prm.grad, alpha=-lr)
+                    n += 1
+        if n:
+            d.stamp += 1
+            freshness_check(w, d, "sgd", p)
+    w.log.add("trained", R.tensor_digest(out), [R.tensor_digest(prm.grad) for prm in d.model.parameters()])
+    return "ok"
+
+
+def freshness_check(w, d, how, p):
+    """C11: until frozen, the quantized weight used by the next forward is the one of the current float weight."""
+    from optimum.quanto.tensor import QTensor
+
+    if not w.focus("C11"):
+        return
+    for n, m in qmodules(d.model):
+        if m.weight_qtype is None or isinstance(m.weight, QTensor):
+            continue
+        w.judged("C11")
+        with torch.no_grad():
+            got = m.qweight
+            want = direct_qweight(m)
+        if R.tensor_digest(got) != R.tensor_digest(want):
+            w.violate("C11", "freshness", "wupdate", {"how": how, "wq": m.weight_qtype.name}, f"{n}: qweight after a weight update is not the quantization of the current float weight", p)
+
+
+def do_wupdate(w, d, op, p):
+    from optimum.quanto.tensor import QTensor
+
+    if not d.quantized:
+        return "skipped"
+    how = op.get("how", "add_")
+    n = 0
+    with torch.no_grad():
+        for name, m in qmodules(d.model):
+            if isinstance(m.weight, QTensor) or m.weight is None:
+                continue
+            delta = archs.gen_payload(m.weight.shape, m.weight.dtype, H(op.get("seed", 0), name), "noise", op.get("mag", 0.5) * float(m.weight.abs().max() + 1e-3))
+            before = R.tensor_digest(direct_qweight(m)) if m.weight_qtype is not None else None
+            if how == "add_":
+                m.weight.data.add_(delta)
+            elif how == "copy_":
+                m.weight.data.copy_(delta)
+            else:
+                m.weight.add_(delta)
+            n += 1
+            if before is not None and R.tensor_digest(direct_qweight(m)) != before:
+                w.probe("update_changed_codes")
+    if not n:
+        return "skipped"
+    d.stamp += 1
+    freshness_check(w, d, how, p)
     return "ok"
